@@ -167,8 +167,40 @@ JudgeGen(e) ==
          [] OTHER -> FALSE,
        subj, own, "generator result violates its documented contract")
 
+\* C14: all runs of one program (other runs before it, other threads beside it, other build
+\* profile) end in the same state after the same number of steps
+JudgeDet(e) ==
+  LET rs == SelectSeq(e.runs, LAMBDA r : ~HasF(r, "envelope")) IN
+  IF rs = <<>> THEN Ok("det")
+  ELSE IF \E i \in 1..Len(rs) : HasF(rs[i], "crash") # HasF(rs[1], "crash")
+       THEN V("mismatch", "det", "C14", "the program crashed in some runs only")
+  ELSE IF HasF(rs[1], "crash") THEN Ok("det")
+  ELSE Expect(\A i \in 1..Len(rs) : rs[i].steps = rs[1].steps /\ rs[i].final = rs[1].final, "det", "C14",
+              "final states of repeated / concurrent / cross-profile runs differ")
+\* C14: node ids are never handed out twice, increase per thread, and exceed every earlier id
+MaxOfSeq(s) == CHOOSE x \in Range(s) : \A y \in Range(s) : y <= x
+MinOfSeq(s) == CHOOSE x \in Range(s) : \A y \in Range(s) : x <= y
+\* the per-thread lists are increasing, so the extremes are among their first / last elements
+NonEmptyLists(e) == SelectSeq(e.ids, LAMBDA s : s # <<>>)
+IdsMin(e) == MinOfSeq([t \in 1..Len(NonEmptyLists(e)) |-> NonEmptyLists(e)[t][1]])
+IdsMax(e) == MaxOfSeq([t \in 1..Len(NonEmptyLists(e)) |-> Last(NonEmptyLists(e)[t])])
+JudgeIds(e, pre) ==
+  LET all == FlatSeq(e.ids)
+      prevmax == IF HasF(pre, "maxid") THEN pre.maxid ELSE 0
+  IN IF all = <<>> THEN Ok("ids")
+     ELSE Expect(/\ \A t \in 1..Len(e.ids) : \A i \in 1..(Len(e.ids[t]) - 1) : e.ids[t][i] < e.ids[t][i + 1]
+                 /\ Cardinality(Range(all)) = Len(all)
+                 /\ IdsMin(e) > prevmax,
+                 "ids", "C14", "a graph node identifier was handed out twice (or not monotonically)")
+JudgeCli(e) ==
+  IF Len(e.lib) >= 100000 THEN Ok("cli:diverges")
+  ELSE Expect(e.cli = e.lib /\ e.done, "cli", "C14", "the command-line front end and the library disagree on the stacks of some step")
+
 Judge(e, pre) ==
   CASE e.act.a = "stack"  -> JudgeStack(e, pre)
+    [] e.act.a = "det"    -> JudgeDet(e)
+    [] e.act.a = "ids"    -> JudgeIds(e, pre)
+    [] e.act.a = "cli"    -> JudgeCli(e)
     [] e.act.a = "buffer" -> JudgeBuffer(e, pre)
     [] e.act.a = "graph"  -> JudgeGraph(e, pre)
     [] e.act.a = "topo"   -> JudgeTopo(e)
@@ -183,7 +215,9 @@ Consume ==
          pre == IF HasF(e, "pre") THEN e.pre ELSE cur
          j   == Judge(e, pre)
      IN /\ (j.v # "ok" => PrintT("EV " \o ToJson([l |-> l, id |-> e.id, i |-> e.i, j |-> j])))
-        /\ cur' = IF Crashed(e) THEN <<>> ELSE e.post
+        /\ cur' = IF Crashed(e) THEN <<>>
+                  ELSE IF e.act.a = "ids" THEN [maxid |-> IF NonEmptyLists(e) = <<>> THEN 0 ELSE IdsMax(e)]
+                  ELSE e.post
   /\ l' = l + 1
 Finish == l = Len(Rec) + 1 /\ PrintT("DONE " \o ToString(Len(Rec))) /\ l' = l + 1 /\ UNCHANGED cur
 Next == Consume \/ Finish
